@@ -240,7 +240,19 @@ func runC14(c *harness.Ctx, p *spec.Path, doc string, useNum bool) {
 	ds, produced := map[uintptr]bool{}, map[uintptr]bool{}
 	docSlices(src, ds)
 	recL := lib.NewRecorder()
-	o := lib.Retrieve(text, src, scribbling(fs, ds, produced).Recording(recL).Config(false))
+	// every fifth case in accessor mode: functions see the same plain values, results are unwrapped with Get()
+	acc := c.K%5 == 3
+	o := lib.Retrieve(text, src, scribbling(fs, ds, produced).Recording(recL).Config(acc))
+	if acc {
+		c.Cover("config:accessor-mode")
+		if o.Err == nil && o.Panic == nil {
+			for i, x := range o.Res {
+				if a, ok := x.(jsonpath.Accessor); ok {
+					o.Res[i] = a.Get()
+				}
+			}
+		}
+	}
 
 	src2 := lib.Decode(doc, useNum)
 	recS := lib.NewRecorder()
